@@ -506,6 +506,11 @@ func (st *State) failure(label string, cond []*term.T, detail string) {
 		st.w.report(mk(knownLabel, m))
 		return
 	}
+	if st.w.knownSeen(label, "") {
+		// a violation with this label (outside every recorded class) is already established:
+		// further witnesses add nothing
+		return
+	}
 	ex := append(append([]*term.T{}, cond...), notKnown...)
 	r, m := st.sat(ex...)
 	switch r {
